@@ -260,7 +260,104 @@ static string handle(const string &payload) {
   return s;
 }
 
+// ---- histories: "H <cap> <op> ..." (see driver.ml) ----
+struct Session;
+struct StartCb {
+  Session *sess; unsigned id; char act;
+  void Done(bool st, const UIDSet &set);
+};
+struct Session {
+  DiscoveryAgent *agent;
+  unsigned next_id;
+  bool ignore;
+  vector<string> log;     // calls, starts, aborts, events in order
+  vector<string> events;
+  Session() : agent(NULL), next_id(0), ignore(false) {}
+  void Start(bool inc, char act) {
+    StartCb *cb = new StartCb();   // kept alive for the whole case (a seeded change may never run it)
+    cb->sess = this; cb->id = next_id++; cb->act = act;
+    DiscoveryAgent::DiscoveryCompleteCallback *c = ola::NewSingleCallback(cb, &StartCb::Done);
+    if (inc) agent->StartIncrementalDiscovery(c); else agent->StartFullDiscovery(c);
+  }
+};
+void StartCb::Done(bool st, const UIDSet &set) {
+  if (sess->ignore) return;
+  std::ostringstream o;
+  o << "E" << id << ":" << (st ? 1 : 0) << ":";
+  bool first = true;
+  for (UIDSet::Iterator it = set.Begin(); it != set.End(); ++it) {
+    if (!first) o << "+";
+    first = false;
+    o << uid_n(*it);
+  }
+  if (first) o << "none";
+  sess->events.push_back(o.str());
+  sess->log.push_back(o.str());
+  if (act == 'f') sess->Start(false, 'n');
+  else if (act == 'i') sess->Start(true, 'n');
+}
+
+static string handle_h(const vector<string> &tok) {
+  u64 cap = vh::num(tok[1]);
+  Line line;
+  Session sess;
+  vector<Resp> pop;
+  u64 used = 0;
+  {
+    DiscoveryAgent agent(&line);
+    sess.agent = &agent;
+    for (size_t i = 2; i < tok.size(); i++) {
+      const string &op = tok[i];
+      if (op[0] == 'S') {
+        // refused iff a discovery is running: observable as "the callback ran during Start"
+        size_t before = sess.events.size();
+        unsigned id = sess.next_id;
+        size_t pos = sess.log.size();
+        sess.Start(op[1] == 'I', op[2]);
+        bool refused = sess.events.size() > before;
+        std::ostringstream o; o << (refused ? "Z" : "S") << id;
+        sess.log.insert(sess.log.begin() + pos, o.str());
+      } else if (op[0] == 'P') {
+        pop = ParsePop(op.substr(2));
+      } else if (op[0] == 'A') {
+        sess.log.push_back("A");
+        line.pending = Line::NONE;   // the line drops the request in flight
+        Line::Kind keep = line.pending;
+        agent.Abort();
+        (void) keep;
+      } else if (op[0] == 'X' || op[0] == 'R') {
+        u64 k = 1;
+        if (op[0] == 'R') k = (op == "R*") ? ~0ULL : vh::num(op.substr(1));
+        for (u64 j = 0; j < k && line.pending != Line::NONE && used < cap; j++) {
+          used++;
+          sess.log.push_back(line.Describe());
+          Answer a = (op[0] == 'X') ? ParseTok(op.substr(2)) : PopAnswer(&pop, line);
+          line.Deliver(a);
+        }
+      }
+    }
+    sess.ignore = true;
+  }
+  Hash h;
+  std::ostringstream log, ev;
+  for (size_t i = 0; i < sess.log.size(); i++) {
+    h.Add(sess.log[i]);
+    if (i < 150) { if (i) log << ","; log << sess.log[i]; }
+  }
+  for (size_t i = 0; i < sess.events.size(); i++) { if (i) ev << "|"; ev << sess.events[i]; }
+  std::ostringstream out;
+  out << "hn=" << sess.log.size() << ";hlog=" << log.str() << ";hh=" << h.h1 << "." << h.h2
+      << ";ev=" << (sess.events.empty() ? "none" : ev.str()) << ";idle=" << (line.pending == Line::NONE ? 1 : 0);
+  return out.str();
+}
+
+static string handle_all(const string &payload) {
+  vector<string> tok = vh::split(payload, ' ');
+  if (tok.size() >= 2 && tok[0] == "H") return handle_h(tok);
+  return handle(payload);
+}
+
 int main(int argc, char **argv) {
   ola::InitLogging(ola::OLA_LOG_NONE, ola::OLA_LOG_NULL);
-  return vh::run(argc, argv, handle, 60);
+  return vh::run(argc, argv, handle_all, 60);
 }
